@@ -193,6 +193,9 @@ def canon_signature(exe, sig, detail):
 # ------------------------------------------------------------------------------------------ running jobs
 def run_vrt_scenario(exe, scen, job, deadline_abs, outdir):
     out = os.path.join(outdir, scen + '.json')
+    if time.time() >= deadline_abs:
+        # the check's budget is used up: the scenario is not started (reported as skipped; the run is not exhaustive)
+        return {'scenario': scen, 'skipped': 1}
     deadline_s = max(5.0, deadline_abs - time.time())  # what is left of the check's budget when this scenario starts
     cmd = [exe, '--run', scen, '--workers', str(job.get('workers', 16)), '--deadline', f'{deadline_s:.0f}', '--json', out]
     if job.get('unbounded'):
@@ -269,7 +272,8 @@ def main():
     for ji, job in enumerate(jobs):
         exe = bins[(job['tu'], job['kind'])]
         elapsed = time.time() - t_start
-        remaining = max(5.0, budget - elapsed)
+        # the rest of the budget is shared equally among the jobs still to run (what a job leaves unused rolls over)
+        remaining = max(5.0, (budget - elapsed) / max(1, len(jobs) - ji))
         outdir = os.path.join(BUILD, pid, f'out{ji}')
         os.makedirs(outdir, exist_ok=True)
         if job['kind'] == 'vrt':
@@ -289,9 +293,15 @@ def main():
                          race_oracle=bool(job.get('race_oracle')), executions=0, states=0, transitions=0, distinct_traces=0,
                          distinct_nontrivial=0, distinct_outcomes=0, bound_completed_min=None, not_exhaustive=[], rounds_max=0,
                          racy_pcs=0, pruned_by_cache=0, deadlock_executions=0)
+            jstat['skipped_scenarios'] = 0
             for d in results:
                 if d.get('harness_error'):
                     harness_errors.append(f"{d['scenario']}: {d.get('harness_error_msg')}")
+                    continue
+                if d.get('skipped'):
+                    jstat['skipped_scenarios'] += 1
+                    jstat['not_exhaustive'].append(d['scenario'] + ' (not started: budget used up)')
+                    exhaustive = False
                     continue
                 jstat['executions'] += d['executions_total']
                 jstat['states'] += d['states']
